@@ -97,6 +97,10 @@ type stringMatcher struct {
 }
 
 func (m *stringMatcher) Match(value client.NormalValue) (bool, error) {
+	if value.IsNil() {
+		// the nil value of a string-valued kind is not always a nillable string (e.g. Blob)
+		return false, nil
+	}
 	if strVal, ok := value.String(); ok {
 		return m.evalFunc(strVal, m.value), nil
 	}
